@@ -330,6 +330,16 @@ class SR:
     def __pos__(self):
         return self
 
+    def __index__(self):
+        """a symbolic count used as an index or slice bound: one path per feasible integer value"""
+        t = z3.simplify(self.t)
+        if z3.is_rational_value(t) and t.denominator_as_long() == 1:
+            return t.numerator_as_long()
+        for k in range(0, 257):
+            if bool(self == k):
+                return k
+        raise HarnessError("symbolic index outside 0..256 or not an integer")
+
     def __mod__(self, o):
         return _e_mod(self, o)
 
@@ -1187,7 +1197,10 @@ def poly_is_zero(p):
 class Engine:
     """Re-execution DFS over branch decisions + one incremental z3 solver."""
 
-    def __init__(self, timeout_ms=20000, max_paths=20000, seed=0):
+    def __init__(self, timeout_ms=20000, max_paths=20000, seed=0, budget_s=None):
+        import time as _time
+        self.deadline = None if budget_s is None else _time.time() + budget_s
+        self.budget_s = budget_s
         self.solver = z3.Solver()
         self.solver.set("timeout", timeout_ms)
         self.asolver = z3.Solver()
@@ -1225,9 +1238,17 @@ class Engine:
     def has_work(self):
         return bool(self.work)
 
+    def _check_deadline(self):
+        if self.deadline is not None:
+            import time as _time
+            if _time.time() > self.deadline:
+                raise HarnessError(f"wall-clock budget of {self.budget_s} s for this obligation exhausted "
+                                   f"after {self.stats['paths']} paths (not decided)")
+
     def begin_path(self):
         if self.stats["paths"] >= self.max_paths:
             raise HarnessError(f"path budget of {self.max_paths} exhausted")
+        self._check_deadline()
         self.prefix = self.work.pop()
         self.log = []
         self.pos = 0
@@ -1326,6 +1347,8 @@ class Engine:
         if z3.is_false(c):
             return False
         self.stats["decisions"] += 1
+        if self.stats["decisions"] % 64 == 0:
+            self._check_deadline()
         if self.pos < len(self.prefix):
             d = self.prefix[self.pos]
         else:
